@@ -21,7 +21,7 @@ from fractions import Fraction
 
 import numpy as np
 
-from .core import Counter, EventLog, HarnessError, Violation, jdump, sha
+from .core import HarnessError, jdump, sha
 from .nodes import NodeCrashed
 from .sim_aoef import AoefSim
 
